@@ -164,6 +164,7 @@ fn opt_of<T>(f: fn(&str) -> Option<T>, s: &str) -> Option<Option<T>> {
 }
 
 fn icv_err(e: &err::ip_auth::IcvLenError) -> String {
+    crate::util::touch(e);
     use err::ip_auth::IcvLenError::*;
     match e {
         TooBig(n) => format!("err(TooBig({}))", n),
@@ -172,6 +173,7 @@ fn icv_err(e: &err::ip_auth::IcvLenError) -> String {
 }
 
 fn ext_err(e: &err::ipv6_exts::ExtPayloadLenError) -> String {
+    crate::util::touch(e);
     use err::ipv6_exts::ExtPayloadLenError::*;
     match e {
         TooSmall(n) => format!("err(TooSmall({}))", n),
@@ -181,6 +183,7 @@ fn ext_err(e: &err::ipv6_exts::ExtPayloadLenError) -> String {
 }
 
 fn arp_hw_err(e: &err::arp::ArpHwAddrError) -> String {
+    crate::util::touch(e);
     use err::arp::ArpHwAddrError::*;
     match e {
         LenTooBig(n) => format!("err(HwAddr(LenTooBig({})))", n),
@@ -189,6 +192,7 @@ fn arp_hw_err(e: &err::arp::ArpHwAddrError) -> String {
 }
 
 fn arp_proto_err(e: &err::arp::ArpProtoAddrError) -> String {
+    crate::util::touch(e);
     use err::arp::ArpProtoAddrError::*;
     match e {
         LenTooBig(n) => format!("err(ProtoAddr(LenTooBig({})))", n),
@@ -197,6 +201,7 @@ fn arp_proto_err(e: &err::arp::ArpProtoAddrError) -> String {
 }
 
 fn tcp_opt_err(e: &TcpOptionWriteError) -> String {
+    crate::util::touch(e);
     match e {
         TcpOptionWriteError::NotEnoughSpace(n) => format!("err(NotEnoughSpace({}))", n),
     }
